@@ -272,7 +272,9 @@ def check(case):
     for hs in case['hashseeds']:
         env = dict(os.environ, PYTHONHASHSEED=str(hs))
         try:
-            p = subprocess.run([sys.executable, '-m', 'pv.props.c17_worker', path], env=env, stdout=subprocess.PIPE, stderr=subprocess.PIPE,
+            # one of the other interpreters also runs with -O (assert statements are compiled away there)
+            flags = ['-O'] if str(hs) == str(case['hashseeds'][-1]) and len(case['hashseeds']) > 1 else []
+            p = subprocess.run([sys.executable] + flags + ['-m', 'pv.props.c17_worker', path], env=env, stdout=subprocess.PIPE, stderr=subprocess.PIPE,
                                timeout=600, cwd=ROOT)
         except subprocess.TimeoutExpired:
             continue        # inconclusive, never a violation
